@@ -958,9 +958,12 @@ def _hill_compare(a, b):
             return cmp(a.symbol, b.symbol)
 
 def _hill_key(a):
+    # Note: include the charge so that the order of the different charge
+    # states of an atom does not depend on the order in the original formula.
     return "".join((("0" if a.symbol in ("C", "H") else "1"),
                     a.symbol,
-                    "%4d"%(a.isotope if isisotope(a) else 0)))
+                    "%4d"%(a.isotope if isisotope(a) else 0),
+                    "%3d"%(a.charge + 50)))
 
 def _convert_to_hill_notation(atoms):
     """
